@@ -72,7 +72,7 @@ ANNOTATIONS = DESCRIPTIONS + ['  leading blanks', '', 'a b  c']
 # operation kinds
 STORES = ('store', 'store_input', 'store_final')      # context-level stores of a model entry
 BINDERS = STORES + ('dummy_run',)                      # operations that bind a name (+ annotation)
-KEY_COMMITTERS = BINDERS + ('db_store_model',)         # operations whose acknowledgement commits the key
+KEY_COMMITTERS = BINDERS + ('db_store_model', 'db_store_entry')         # operations whose acknowledgement commits the key
 TXN_KINDS = KEY_COMMITTERS + ('metadata', 'localfile', 'nmfiles')   # run database transactions
 READS = ('retrieve', 'retrieve_log', 'retrieve_name')
 NM_SUFFIXES = ('.lst', '.ext', '.phi', '.cov')
@@ -95,7 +95,7 @@ def op_results_json(op):
     if op.get('model') is None:
         return None
     e = POOL[op['model']]
-    if k in STORES:
+    if k in STORES or k == 'db_store_entry':
         return e['results_json'] if e['has_results'] else None
     if k == 'dummy_run':
         return DUMMY[e['idx']]
@@ -108,7 +108,8 @@ def op_may_commit_without_results(op):
     """The key may become visible without results through this operation (the dummy runner
     first stores the bare model in a transaction of its own)."""
     k = op['kind']
-    return k in ('db_store_model', 'dummy_run') or (k in STORES and not POOL[op['model']]['has_results'])
+    return k in ('db_store_model', 'dummy_run') or (
+        (k in STORES or k == 'db_store_entry') and not POOL[op['model']]['has_results'])
 
 
 _BASE = [None]
@@ -270,8 +271,15 @@ def prepare():
         do_nmfiles(ctx.model_database, e)
         r1 = ctx.model_database.retrieve_modelfit_results(ModelHash(e['key']))
         r2 = ctx.retrieve_model_entry(e['name']).modelfit_results
+        if r1 is None or r2 is None or r1.to_json() != r2.to_json():
+            PREPARE_VIOLATIONS.append({
+                'signature': f'{PROP}/results-not-retrievable-after-fault-free-store',
+                'detail': f'{e["name"]}: NONMEM output files stored next to the model with '
+                          f'store_local_file(new_filename=model.lst, ...) give '
+                          f'{"no results" if r1 is None or r2 is None else "different results per accessor"}'})
+            NMRES[idx] = None
+            continue
         NMRES[idx] = r1.to_json()
-        assert r2.to_json() == NMRES[idx], 'parsing the same NONMEM output twice gives the same results'
     shutil.rmtree(gdir, ignore_errors=True)
     _MEMO.clear()
     keys = [e['key'] for e in POOL[:8]]
@@ -440,7 +448,8 @@ def gen_workload(tape):
         kind = tape.weighted([(10, 'store'), (2, 'store_input'), (1, 'store_final'), (4, 'log'),
                               (2, 'annotate'), (2, 'metadata'), (2, 'localfile'), (3, 'retrieve'),
                               (1, 'db_store_model'), (1, 'retrieve_log'), (2, 'sub_store'),
-                              (1, 'sub_log'), (2, 'dummy_run'), (2, 'nmfiles'), (1, 'ctx_metadata')], 'op')
+                              (1, 'sub_log'), (2, 'dummy_run'), (2, 'nmfiles'), (1, 'ctx_metadata'),
+                              (1, 'db_store_entry')], 'op')
         m = chosen[tape.draw(len(chosen), 'op.model')]
         if kind == 'nmfiles':
             ok = [x for x in chosen if x in NM_OK]
@@ -582,6 +591,12 @@ def apply_ack(ref, op):
     elif k == 'db_store_model':
         e = POOL[op['model']]
         ref.keys_acked.setdefault(e['key'], {'results': False})
+    elif k == 'db_store_entry':
+        e = POOL[op['model']]
+        st = ref.keys_acked.setdefault(e['key'], {'results': False})
+        if e['has_results']:
+            st['results'] = True
+            ref.note_results(e['key'], e['results_json'], op.get('_times'))
     elif k in ('metadata', 'localfile'):
         ref.files.setdefault(POOL[op['model']]['key'], set()).add(k)
     elif k == 'nmfiles':
@@ -628,6 +643,8 @@ def do_op(ctx, op, localfile):
         ctx.store_final_model_entry(e['me'])
     elif k == 'db_store_model':
         ctx.model_database.store_model(e['model'])
+    elif k == 'db_store_entry':
+        ctx.model_database.store_model_entry(e['me'])
     elif k == 'log':
         fn = {'info': ctx.log_info, 'warning': ctx.log_warning, 'error': ctx.log_error}[op['sev']]
         fn(op['msg'], model=e['model'] if e is not None else None)
@@ -766,6 +783,21 @@ def check_state(root, ref, inflight, V, where, wl_models, do_progress=True):
         return
     db = ctx.model_database
     subctx = [None]
+    # the context itself (created before any fault) is still recognised as one
+    try:
+        if not Ctx.exists('ctx', ref=root):
+            V.viol('context-not-recognised', f'{where}: LocalDirectoryContext.exists() is False')
+        subs = ctx.list_all_subcontexts()
+        if subs not in ([], [SUB]):
+            V.viol('context-not-recognised', f'{where}: list_all_subcontexts() = {subs}')
+        if subs:
+            sc = quiet(ctx.get_subcontext(SUB))
+            par = sc.get_parent_context()
+            if str(par.path) != str(ctx.path) or sc.context_path != f'ctx/{SUB}' or \
+                    str(sc.model_database.path) != str(db.path):
+                V.viol('context-not-recognised', f'{where}: subcontext {sc.context_path} / parent {par.path}')
+    except Exception as ex:
+        V.viol(f'context-not-recognised/{type(ex).__name__}', f'{where}: {ex!r}')
 
     def cx(name):
         """(context object, plain name) for a possibly 'sub1/'-prefixed name."""
@@ -1001,6 +1033,20 @@ def check_state(root, ref, inflight, V, where, wl_models, do_progress=True):
             raise
     except Exception as ex:
         V.viol(f'common-options-changed/{type(ex).__name__}', f'{where}: retrieve_common_options: {ex!r}')
+    for which in ('', SUB):
+        if which in ref.ctx_meta or which in infl.ctx_meta:
+            continue
+        try:
+            c_ = ctx if which == '' else quiet(ctx.get_subcontext(SUB))
+        except ValueError:
+            continue
+        try:
+            got = c_.retrieve_metadata()
+        except (OSError, ValueError):
+            pass
+        else:
+            V.viol('context-metadata-not-verbatim', f'{where}: {which or "ctx"} serves metadata {got!r} '
+                                                    f'although none was stored in this context')
     for which, v in ref.ctx_meta.items():
         if which in infl.ctx_meta:
             continue        # a later, interrupted store_metadata rewrites the file in place
